@@ -105,6 +105,15 @@ def zip_bytes(members):
                 data = b(payload)
             else:
                 zi.external_attr = (stat.S_IFREG | (flags.get("mode", 0o644))) << 16
+                # flags['attr']: what other archivers record for a file - permission bits without the file-type bits
+                # (ZipFile.writestr), nothing at all, or MS-DOS attributes
+                if flags.get("attr") == "noftype":
+                    zi.external_attr = 0o600 << 16
+                elif flags.get("attr") == "zero":
+                    zi.external_attr = 0
+                elif flags.get("attr") == "dos":
+                    zi.create_system = 0
+                    zi.external_attr = 0x20
                 data = b(payload)
             z.writestr(zi, data)
     return bio.getvalue()
